@@ -1,8 +1,23 @@
 #!/bin/bash
-# Extra (not a registered check): unbounded TLAPS proofs of the arithmetic lemmas behind every size computation.
-set -e
+# Extra evidence (not a registered check; nothing here decides a property about the code):
+#  1. TLAPS: unbounded proofs of the arithmetic lemmas behind every size computation (spec/proofs).
+#  2. Apalache: the step lemma of the NACK pair builder for ALL 2^16 x 2^16 x 2^16 (packet ID, bitmap, next
+#     sequence number) combinations, one instance per gap 0..16 and one for "more than 16" (spec/apalache/
+#     NackLemma.tla), and the loop invariant as an inductive invariant for lists of up to 2 numbers with
+#     arbitrary values (NackInd.tla). TLC checks the same invariant on 17..26 boundary values only.
+cd "$(dirname "$0")/.."
+V=$PWD
 D=$(mktemp -d /tmp/proofs.XXXXXX)
-cp "$(dirname "$0")/../spec/proofs/"*.tla $D/
-cd $D
-for f in *.tla; do timeout 600 tlapm --threads 8 $f 2>&1 | grep -E "obligations|ERROR" ; done
-rm -rf $D
+cp spec/proofs/*.tla $D/
+( cd $D; for f in *.tla; do timeout 600 tlapm --threads 8 $f 2>&1 | grep -E "obligations|ERROR" ; done )
+mkdir $D/apa; cp spec/apalache/*.tla $D/apa/; cd $D/apa
+for k in $(seq 0 17); do
+  printf 'CONSTANT K = %s\nINIT InitK\nNEXT Next\nINVARIANT StepLemma\n' $k > lemma$k.cfg
+  ( timeout 1800 apalache-mc check --config=lemma$k.cfg --length=0 --out-dir=$D/apa/out$k NackLemma.tla > log$k.txt 2>&1; echo "NackLemma gap=$k: $(grep -E 'EXITCODE' log$k.txt || echo 'no result (timeout)')" ) &
+done
+wait
+printf 'CONSTANT MaxLen = 2\nINIT LoopEntry\nNEXT Next\nINVARIANT IndInv\n' > base.cfg
+printf 'CONSTANT MaxLen = 2\nINIT IndInit\nNEXT Next\nINVARIANT IndInv\n' > step.cfg
+timeout 600 apalache-mc check --config=base.cfg --length=0 --out-dir=$D/apa/outb NackInd.tla 2>&1 | grep -E "EXITCODE" | sed 's/^/NackInd loop entry => IndInv: /'
+timeout 1800 apalache-mc check --config=step.cfg --length=1 --out-dir=$D/apa/outs NackInd.tla 2>&1 | grep -E "EXITCODE" | sed 's/^/NackInd IndInv \/\\ Next => IndInv'"'"': /'
+cd $V; rm -rf $D
